@@ -71,6 +71,11 @@ pub fn str_from<'a>(s: &'a str, a: usize) -> (r: &'a str)
     requires is_boundary(s@, a as int), // [C02_C15:a_string_is_only_sliced_at_character_boundaries_in_order_and_in_range_for_any_unicode_text]
     ensures r@ == s@.subrange(idx_of(s@, a as int), s@.len() as int),
 { unimplemented!() }
+#[verifier::external_body]
+pub fn str_to<'a>(s: &'a str, b: usize) -> (r: &'a str)
+    requires is_boundary(s@, b as int), // [C02_C15:a_string_is_only_sliced_at_character_boundaries_in_order_and_in_range_for_any_unicode_text]
+    ensures r@ == s@.subrange(0, idx_of(s@, b as int)),
+{ unimplemented!() }
 // std: `s.char_indices().map(|(i, _)| i).chain(once(s.len())).collect()` = the byte offset of every character, then the length
 #[verifier::external_body]
 pub fn char_byte_offsets(s: &str) -> (r: Vec<usize>)
@@ -196,6 +201,16 @@ def build(read):
     if re.search(pat, f):
         f = extract.rewrite_regex_once(f, pat, "char_byte_offsets(s)", "interpolate_string: byte offset table")
         b.edits.append("D5: interpolate_string: `s.char_indices().map(|(i, _)| i).chain(once(s.len())).collect()` -> `char_byte_offsets(s)` (std contract)")
+    def split_range(inner):
+        depth = 0
+        for i, ch in enumerate(inner):
+            if ch in "([":
+                depth += 1
+            elif ch in ")]":
+                depth -= 1
+            elif ch == "." and inner[i:i + 2] == ".." and depth == 0:
+                return inner[:i].strip(), inner[i + 2:].strip()
+        return None
     n = 0
     pos = 0
     while True:
@@ -205,29 +220,37 @@ def build(read):
         start = pos + m.start()
         ob = pos + m.end() - 1
         cb = extract.match_brace(f, ob)
-        inner = f[ob + 1:cb]
-        # split at the top-level `..`
-        depth = 0
-        cut = None
-        for i, ch in enumerate(inner):
-            if ch in "([":
-                depth += 1
-            elif ch in ")]":
-                depth -= 1
-            elif ch == "." and inner[i:i + 2] == ".." and depth == 0:
-                cut = i
-                break
-        if cut is None:
+        rng = split_range(f[ob + 1:cb])
+        if rng is None:
             pos = cb + 1
             continue
-        lo_e, hi_e = inner[:cut].strip(), inner[cut + 2:].strip()
-        rep = f"str_slice(s, {lo_e}, {hi_e})" if hi_e else f"str_from(s, {lo_e})"
-        f = f[:start] + rep + f[cb + 1:]
-        pos = start + len(rep)
-        n += 1
-    if n != 3:
-        raise Undecided(f"interpolate_string: expected 3 string slicing sites, found {n}")
-    b.edits.append("D5: interpolate_string: 3x `s[a .. b]` / `s[a ..]` -> `str_slice(s, a, b)` / `str_from(s, a)` "
+        base = "s"
+        end = cb
+        while True:
+            lo_e, hi_e = rng
+            if lo_e and hi_e:
+                base = f"str_slice({base}, {lo_e}, {hi_e})"
+            elif lo_e:
+                base = f"str_from({base}, {lo_e})"
+            elif hi_e:
+                base = f"str_to({base}, {hi_e})"
+            else:
+                raise Undecided("interpolate_string: `s[..]` slicing site")
+            n += 1
+            # a slice of the slice: `&s[a ..][.. n]`
+            if f[end + 1:end + 2] == "[":
+                cb2 = extract.match_brace(f, end + 1)
+                rng = split_range(f[end + 2:cb2])
+                if rng is None:
+                    break
+                end = cb2
+                continue
+            break
+        f = f[:start] + base + f[end + 1:]
+        pos = start + len(base)
+    if n < 1:
+        raise Undecided("interpolate_string: no string slicing site found")
+    b.edits.append(f"D5: interpolate_string: {n}x `s[a .. b]` / `s[a ..]` / `s[.. b]` -> `str_slice(s, a, b)` / `str_from(s, a)` / `str_to(s, b)` "
                    "(std contract; the panic condition - bounds not on character boundaries / out of order / out of range - is a checked precondition)")
     f = extract.rewrite_once(f, "result.join(\"\")", "join_all(&result)", "interpolate_string: join")
     b.edits.append("D5: `result.join(\"\")` -> `join_all(&result)` (std contract: concatenation)")
